@@ -96,3 +96,55 @@ Lemma next_code_point_ascii c r : c <? 128 = true -> next_code_point (c :: r) = 
 Proof. intros H. cbn [next_code_point]. rewrite H. reflexivity. Qed.
 Lemma next_code_point_minus r : next_code_point (226 :: 136 :: 146 :: r) = Some (8722, r).
 Proof. reflexivity. Qed.
+
+(** * decoding the first scalar value of a well-formed string *)
+Ltac Zify.zify_post_hook ::= Z.to_euclidean_division_equations.
+Lemma land_31 x : Z.land x 31 = x mod 32.
+Proof. change 31 with (Z.ones 5). rewrite Z.land_ones by lia. reflexivity. Qed.
+Lemma land_63 x : Z.land x 63 = x mod 64.
+Proof. change 63 with (Z.ones 6). rewrite Z.land_ones by lia. reflexivity. Qed.
+Lemma land_7 x : Z.land x 7 = x mod 8.
+Proof. change 7 with (Z.ones 3). rewrite Z.land_ones by lia. reflexivity. Qed.
+
+(** ASCII first byte: the scalar value is the byte; otherwise the scalar value is >= 128, and it
+    is U+2212 only for the bytes E2 88 92 *)
+Lemma ncp_valid s : utf8_valid s = true ->
+  match s with
+  | [] => next_code_point s = None
+  | x :: r =>
+      (0 <= x <= 127 /\ next_code_point s = Some (x, r)) \/
+      (128 <= x /\ exists cp r', next_code_point s = Some (cp, r') /\ 128 <= cp /\
+                   (cp = 8722 -> s = 226 :: 136 :: 146 :: r'))
+  end.
+Proof.
+  destruct s as [|a r]; [reflexivity|]. cbn [utf8_valid]. intros H.
+  destruct ((0 <=? a) && (a <=? 127)) eqn:E1.
+  { left. split; [lia|]. cbn [next_code_point]. replace (a <? 128) with true by lia. reflexivity. }
+  right.
+  destruct ((194 <=? a) && (a <=? 223)) eqn:E2.
+  { destruct r as [|b r']; [discriminate|]. apply andb_prop in H. destruct H as [Hb _]. unfold cont in Hb.
+    split; [lia|]. cbn [next_code_point]. replace (a <? 128) with false by lia. replace (a <? 224) with true by lia.
+    eexists _, _. split; [reflexivity|]. rewrite land_31, land_63. split; lia. }
+  destruct ((224 <=? a) && (a <=? 239)) eqn:E3.
+  { destruct r as [|b [|c r']]; try discriminate.
+    apply andb_prop in H. destruct H as [H _]. apply andb_prop in H. destruct H as [Hb Hc]. unfold cont in *.
+    split; [lia|]. cbn [next_code_point]. replace (a <? 128) with false by lia. replace (a <? 224) with false by lia.
+    replace (a <? 240) with true by lia.
+    eexists _, _. split; [reflexivity|]. rewrite land_31, !land_63.
+    destruct (a =? 224) eqn:Ea; [|destruct (a =? 237) eqn:Ea'].
+    - split; [lia|]. intros Hcp. exfalso. lia.
+    - split; [lia|]. intros Hcp. exfalso. lia.
+    - split; [lia|]. intros Hcp.
+      assert (a = 226 /\ b = 136 /\ c = 146) as (-> & -> & ->) by lia. reflexivity. }
+  destruct ((240 <=? a) && (a <=? 244)) eqn:E4; [|discriminate].
+  destruct r as [|b [|c [|d r']]]; try discriminate.
+  apply andb_prop in H. destruct H as [H _]. apply andb_prop in H. destruct H as [H Hd].
+  apply andb_prop in H. destruct H as [Hb Hc]. unfold cont in *.
+  split; [lia|]. cbn [next_code_point]. replace (a <? 128) with false by lia. replace (a <? 224) with false by lia.
+  replace (a <? 240) with false by lia.
+  eexists _, _. split; [reflexivity|]. rewrite land_7, land_31, !land_63.
+  destruct (a =? 240) eqn:Ea; [|destruct (a =? 244) eqn:Ea'].
+  - split; [lia|]. intros Hcp. exfalso. lia.
+  - split; [lia|]. intros Hcp. exfalso. lia.
+  - split; [lia|]. intros Hcp. exfalso. lia.
+Qed.
